@@ -22,7 +22,7 @@ RULE = ("(a) organic molecules over C,H,N,O,S,halogens (fixed list with tetrahed
 ASSUMPTIONS = ["RDKit's ETKDG embedding and AssignStereochemistryFrom3D are the environment",
                "embedding failures, geometries failing the general-position guard and conformers whose distance-derived connectivity "
                "(harness side) differs from the RDKit bond list are skipped and counted"]
-BUDGET = {"quick": 240, "thorough": 1800}
+BUDGET = {"quick": 600, "thorough": 1800}
 
 ORG = [s for s in R.ORGANICS if "P" not in s and "[N@]" not in s and "[S@" not in s and "[H]/N" not in s] + [
     "C[C@H](O)[C@H](N)C(=O)O", "Cl/C=C/[C@H](F)C", "C[C@H](Cl)/C=C\\Br", "C[C@]12CC[C@H](C1)C2", "O=C(O)[C@H](O)[C@@H](O)C(=O)O",
@@ -161,6 +161,31 @@ def _organic(item, out):
                 out["viol"].append({"sig": "C14/organic/" + "+".join(kinds), "input": f"{can}|seed{s}",
                                     "what": f"{can} (embedding seed {s}): annotation graph == coordinate graph is {eq}; local differences "
                                             f"{what[:4]}", "item": item, "detail": {"differences": what[:10]}})
+            # the same conformer with its atoms renumbered by RDKit (reversed; rotated by a third): bonds are then stored with
+            # begin index > end index, neighbour lists in another order - annotation import and coordinates must still agree
+            if eq is True:
+                n = m3.GetNumAtoms()
+                for oname, order in (("reversed", list(range(n - 1, -1, -1))), ("rotated", [(i + n // 3 + 1) % n for i in range(n)])):
+                    mr = Chem.RenumberAtoms(m3, order)
+                    dblr = {frozenset((b.GetBeginAtomIdx(), b.GetEndAtomIdx())) for b in mr.GetBonds()
+                            if b.GetBondType() == Chem.BondType.DOUBLE and not b.GetIsAromatic()}
+                    cr = mr.GetConformer()
+                    elsr = [a.GetSymbol() for a in mr.GetAtoms()]
+                    xyzr = np.array([[cr.GetAtomPosition(i).x, cr.GetAtomPosition(i).y, cr.GetAtomPosition(i).z] for i in range(n)])
+                    out["evals"] += 1
+                    out["distinct"] += 1
+                    oc["compared-renumbered"] = oc.get("compared-renumbered", 0) + 1
+                    try:
+                        ga = _strip_nondouble(conv(mr), dblr)
+                        gg = _strip_nondouble(StereoMolGraph.from_geometry(Geometry(elsr, xyzr)), dblr)
+                        eqr = (ga == gg) and (gg == ga)
+                    except Exception as e:
+                        eqr = "EXC:" + type(e).__name__
+                    if eqr is not True:
+                        out["viol"].append({"sig": f"C14/organic/renumbered-{oname}", "input": f"{can}|seed{s}",
+                                            "what": f"{can} (embedding seed {s}), atoms renumbered ({oname}): annotation graph == "
+                                                    f"coordinate graph is {eqr}, although they agree in the original atom order",
+                                            "item": item, "detail": None})
     out["samples"].append({"smiles": smi, "stereoisomers": list(R.stereoisomers(smi))})
     return out
 
